@@ -20,3 +20,6 @@ Record ifile := { packs : list ipack; packs_to_delete : list ipack }.
 
 (* SortedEntry { id, pack_idx: u32, location } *)
 Record sentry := { e_id : N; e_pack : nat; e_loc : loc }.
+
+(* IndexType *)
+Inductive imode := Full | DataIds | OnlyTrees.
